@@ -14,7 +14,8 @@ def units(tier, seed):
     us, unc = k6family.make_units('C06', MODULES, tier)
     UNCOVERED[:] = unc
     from checks import foundation
-    return list(us) + foundation.units(tier, seed)
+    from checks import hello
+    return list(us) + [hello.unit(('K6', 'K3'), 'K6+K3')] + foundation.units(tier, seed)
 
 
 FINDING_REPLAYS = regions.finding_replays('C06')
